@@ -23,6 +23,7 @@ type slidingWindowDetector struct {
 	maxSeq     uint64
 	windowSize uint
 	mask       *fixedBigInt
+	accepted   bool
 }
 
 // New creates ReplayDetector.
@@ -54,13 +55,15 @@ func (d *slidingWindowDetector) Check(seq uint64) (func() bool, bool) {
 	}
 
 	return func() bool {
-		latest := seq == 0
+		// Sequence number 0 is the latest only if nothing was accepted before.
+		latest := !d.accepted
 		if seq > d.latestSeq {
 			// Update the head of the window.
 			d.mask.Lsh(uint(seq - d.latestSeq))
 			d.latestSeq = seq
 			latest = true
 		}
+		d.accepted = true
 		d.mask.SetBit(uint(d.latestSeq - seq))
 
 		return latest
